@@ -326,21 +326,19 @@ def convertArg (k : ArgKind) (d : Datum) : M Datum :=
   | .bool => if d.isBool then pure d else do pure (.bool (← d.toBool))
   | .nodeset => if d.isNodeset then pure d else .error "takes NODESET"
 
-/-- pop `ks.length` arguments (last argument on top), converting each -/
-def popArgs : List ArgKind → List Datum → M (List Datum × List Datum)
+/-- pop one argument per kind, the kinds given last-argument-first -/
+def popArgsRev : List ArgKind → List Datum → M (List Datum × List Datum)
   | [], σ => pure ([], σ)
   | k :: ks, σ => do
-    -- arguments were pushed left to right: the last one is on top; pop the tail first
-    let (rest, σ1) ← popArgsRev (k :: ks).reverse σ
-    pure (rest.reverse, σ1)
-where
-  popArgsRev : List ArgKind → List Datum → M (List Datum × List Datum)
-    | [], σ => pure ([], σ)
-    | k :: ks, σ => do
-      let (d, σ1) ← pop σ
-      let d' ← convertArg k d
-      let (ds, σ2) ← popArgsRev ks σ1
-      pure (d' :: ds, σ2)
+    let (d, σ1) ← pop σ
+    let d' ← convertArg k d
+    let (ds, σ2) ← popArgsRev ks σ1
+    pure (d' :: ds, σ2)
+
+/-- pop `ks.length` arguments (pushed left to right, so the last one is on top), converting each -/
+def popArgs (ks : List ArgKind) (σ : List Datum) : M (List Datum × List Datum) := do
+  let (rest, σ1) ← popArgsRev ks.reverse σ
+  pure (rest.reverse, σ1)
 
 def numCmp (op : BinOp) (a b : SF) : Bool :=
   match op with
